@@ -79,6 +79,8 @@ def step (st : St) (line : String) : St × String :=
     | some op =>
       let (s', r) := FxVerif.Model.C13.step st.s op
       let st' := { st with s := s' }
-      (st', showRes r ++ " " ++ showState st')
+      match r with
+      | .panic _ => (st', showRes r)   -- FinalizeBlock panicked: nothing is committed, the chain halts
+      | _ => (st', showRes r ++ " " ++ showState st')
 
 def main : IO Unit := runDriver step ({} : St)
